@@ -82,7 +82,7 @@ def build_harness(backends=("f64", "dec")):
         shutil.copy(os.path.join(REPO, "Cargo.lock"), lock)
     procs = []
     for be in backends:
-        feats = "astro,serde" if be == "f64" else "dec,serde"
+        feats = "astro,serde,temp" if be == "f64" else "dec,serde,temp"
         env = dict(ENV, CARGO_TARGET_DIR=os.path.join(CACHE, f"target-{be}"), RUSTFLAGS="-Awarnings")
         procs.append((be, subprocess.Popen(
             ["cargo", "build", "--features", feats, "--message-format=short"],
